@@ -24,7 +24,7 @@ def base_cases(ctx):
     bases = []
     recs = [Recipe(6, allow=15, exclude=16), Recipe(8, allow=3, require=4, require_sets=["357"]), Recipe(4, allow_chars="é€ab", require_sets=["é"]),
             Recipe(3, allow=4)]
-    recs += [chargen.gen_recipe(rng) for _ in range(12 if ctx.tier == "quick" else 120)]
+    recs += [chargen.gen_recipe(rng, long_ok=False) for _ in range(12 if ctx.tier == "quick" else 120)]   # every read position is a fault point: moderate lengths
     for r in recs:
         if r.length < 1 or not r.alphabet():
             continue
@@ -65,6 +65,7 @@ def correspondence(ctx):
     for c, a, b in res_wl:
         flat[c["meta"]["base"]] = wlgen.parse_pre(a)[2] if a else None
     ctx.flat = flat
+    ctx.flat_sig = {c["meta"]["base"]: choice_signature(a) for c, a, b in res_wl}
     ccases, wcases = [], []
     for i, x in enumerate(bases):
         a = flat.get(i)
@@ -105,8 +106,43 @@ def correspondence(ctx):
     ctx.again = again
 
 
+def same_choices(s1, s0):
+    if len(s1) != len(s0):
+        return False
+    for x, y in zip(s1, s0):
+        if x[0] != y[0] or x[1] != y[1]:
+            return False
+        if x[0] == "atom" and x[2] is not None and y[2] is not None and x[2] != y[2]:
+            return False      # (None: the word at that index has no distinct title form in this construction's order)
+    return True
+
+
 def strip_order(a):
     return wlgen.parse_pre(a)[2] if a else a
+
+
+def choice_signature(a):
+    """the CHOICES behind a wordlist result, independent of the order in which this construction happened to store its words:
+    for every atom the index of its word in this construction's order and whether it is the title form, and the separators"""
+    from .c05 import title_map
+    if not a:
+        return None
+    order, titles, rest = wlgen.parse_pre(a)
+    d = chargen.parse_password(rest)
+    if not d or d["outcome"] != "ok" or not order or order == "0":
+        return None
+    words = [core.unhx(x) for x in order.split(",")[1:]]
+    tmap = title_map(titles)
+    sig = []
+    for v, ty in d["tokens"]:
+        if ty != 1:
+            sig.append(("sep", v))
+        elif v in words:
+            sig.append(("atom", words.index(v), None if tmap.get(v, v) == v else False))
+        else:
+            idx = [i for i, w in enumerate(words) if tmap.get(w, w) == v]
+            sig.append(("atom", idx[0] if idx else -1, True))
+    return sig
 
 
 def oracle(ctx, deep):
@@ -124,6 +160,11 @@ def oracle(ctx, deep):
                 if fa is None or fb is None or fa["outcome"] != fb["outcome"] or fa.get("consumed") != fb.get("consumed") or (
                         line.startswith("chargen") and fa.get("str") != fb.get("str")):
                     ctx.violations.append(dict(base, finding_key="C09-chunking", what="the same source bytes, chunked differently, gave a different result"))
+                elif line.startswith("wlgen"):
+                    # word order differs between constructions of a list; the CHOICES (index of each word, capitalised or not, separators) may not
+                    s1, s0 = choice_signature(a), getattr(ctx, "flat_sig", {}).get(meta["base"])
+                    if s1 is not None and s0 is not None and not same_choices(s1, s0):
+                        ctx.violations.append(dict(base, finding_key="C09-nondeterministic", what="the same recipe fed the same source bytes made different choices (word indices / capitalised positions / separators %r, before %r)" % (s1[:6], s0[:6])))
         else:
             if not a2.startswith("panic prng"):
                 ctx.violations.append(dict(base, finding_key="C09-failopen", what="a read failed during generation (read %d, %d bytes delivered) but no panic/error resulted: %s" % (meta["read"], meta["delivered"], a2[:60])))
